@@ -21,7 +21,8 @@ Whether a write is accepted (`writer.Write(pck) > 0`) is decided by the environm
 
     OneToOne.forward:   Read; (out, err) := action(in)
                         err ≠ nil:  Link(in, err); Write(errWriter, err)
-                        else:       Link(in, out); Write(outWriter, out)
+                        out ≠ nil:  Link(in, out); Write(outWriter, out)
+                        else:       Write(nil, in)
     OneToMany.forward:  Read; (outs, err) := action(in)
                         err ≠ nil:  Link(in, err); Write(errWriter, err)
                         else:       for i, out (i < len(outWriters), out ≠ nil): Link(in, out)
@@ -128,7 +129,8 @@ def validOuts (n : Nat) : Nat → List (Option Pkt) → List (Nat × Pkt)
   | i, none :: qs => validOuts n (i + 1) qs
   | i, some q :: qs => if i < n then (i, q) :: validOuts n (i + 1) qs else validOuts n (i + 1) qs
 
-/-- the `Link`/`Write` calls that follow the action's return; `none` = the Go code dereferences nil -/
+/-- the `Link`/`Write` calls that follow the action's return (`none` = the Go code would dereference nil: no longer
+possible – a one-to-one action returning `(nil, nil)` answers the request with itself since the fix) -/
 def program (k : Kind) (p : Pkt) : Outcome → Option (List Op)
   | .err q => some [.link p.id q.id, .write (some errW) q]
   | .outs qs =>
@@ -136,7 +138,7 @@ def program (k : Kind) (p : Pkt) : Outcome → Option (List Op)
     | .oneToOne =>
       match qs with
       | [some q] => some [.link p.id q.id, .write (some (outW 0)) q]
-      | _ => none
+      | _ => some [.write none p]
     | .oneToMany n =>
       match validOuts n 0 qs with
       | [] => some [.write none p]
